@@ -175,6 +175,17 @@ def recreate (o : Org) (fresh : Call → Img) (s : Img) (c : Call) : Img :=
     { s with a := r.1, view := (createViewK o s.mem c.w c.h r.1 0).1.view o, plane := fun k => (createViewK o s.mem c.w c.h r.1 k).2 }
   else fresh c
 
+/-- `image(const image& img)`: `allocate_and_copy(img.dimensions(), …)` with `img`'s alignment (generated initialiser and body;
+    `allocate_and_copy` = `allocate_` + `uninitialized_copy_pixels`) -/
+def copyConstruct (o : Org) (addr : Int → Int) (src : Img) : Img :=
+  let d := copy_ctor_dims src.view.w src.view.h 0 0
+  allocate o addr d.1 d.2 (copy_ctor_align src.a)
+
+/-- `dst = src` (copy assignment): equal dimensions -> `copy_pixels` into `dst`'s storage (state unchanged);
+    otherwise `image tmp(src); swap(tmp)` -- `dst` becomes the fresh copy (with `src`'s alignment) -/
+def assign (o : Org) (addr : Int → Int) (dst src : Img) : Img :=
+  if assign_branch dst.view.w dst.view.h src.view.w src.view.h 0 = 0 then dst else copyConstruct o addr src
+
 def recreateAll (o : Org) (fresh : Call → Img) (s : Img) (cs : List Call) : Img := cs.foldl (recreate o fresh) s
 
 /-- every call of the list keeps the storage (branch 0 or 1) and its size arithmetic does not overflow -/
@@ -193,6 +204,12 @@ def decReuseOK (o : Org) (fresh : Call → Img) : (s : Img) → (cs : List Call)
     | _, _, isFalse h3 => isFalse (fun h => h3 h.2.2)
 
 instance (o : Org) (fresh : Call → Img) (s : Img) (cs : List Call) : Decidable (ReuseOK o fresh s cs) := decReuseOK o fresh s cs
+
+/-- the size arithmetic of every call fits, both over the storage the image has then and for the block a reallocation would obtain -/
+def CallsOK (o : Org) (addr : Int → Int) : Img → List Call → Prop
+  | _, [] => True
+  | s, c :: cs => NoOvf o c.w c.h c.a s.mem ∧ NoOvf o c.w c.h c.a (addr (allocBytes o c.w c.h c.a))
+      ∧ CallsOK o addr (recreate o (fun c => allocate o addr c.w c.h c.a) s c) cs
 
 /-- **Spec**: every in-range pixel of every view derived from the image's view by a valid list of
     transformations touches only bytes inside `[0, _allocated_bytes)` of the image's storage -/
